@@ -161,6 +161,8 @@ def to_obj(m):
                 info[i] = bytes(d)
             o = RSP[fc](m['read_code'], info, **kw)
             o.conformity = m['conformity']
+            o.more_follows = m['more']
+            o.next_object_id = m['next_id']
             return o
     raise ValueError(m)
 
